@@ -18,6 +18,8 @@ CLAIMS = {
          'Same organisations and compositions as C01/C02 (depth <= 2); locator move sequences are single 2-D moves plus axis-iterator walks, not arbitrary sequences.', '4 C03'),
  'C04': ('Pixel algorithms: TLC checks that the 1-D-traversable dispatch of fill/copy touches exactly the slots of the per-pixel loop for every pair of view descriptors (sizes, paddings, step signs, offsets), and every recorded call of copy / copy_and_convert / generate / fill / for_each(+position) / transform with 1 and 2 sources (+position) / equal on real views of 27 compatible organisation pairs x 3 view classes is validated by TLC: the whole destination buffer after the call must equal the bit-exact per-pixel loop applied to the buffer before (channels paired by colour; everything else is a frame condition), functors are called once per pixel in row-major order, the source is untouched and equal_pixels returns the per-pixel answer. Every (pair, class, algorithm group) is first an instantiation probe, so a combination that stops compiling is an observed violation.',
          'Organisation pairs / view classes are an explicit table (harness/c04_cases.py). NDEBUG build. Unused bits inside a destination packed pixel are not constrained (they are inside the destination pixels). Float organisations use finite positive floats only (bitwise-comparable assumption).', '4 C04'),
+ 'C10': ('image container protocol: TLC explores every history of public operations (construct, copy, move, assign, recreate with and without allocator, swap, destroy) up to 3 (quick) / 4 (thorough) calls over two handles with propagating and non-propagating allocator traits and an allocation failure injected at every allocating call, checking no leak / no double free / free with the allocation size and an equal allocator / element balance / sufficiently sized blocks in every state; the histories themselves are exported by TLC (BFS: all of length 2 / 3, plus seeded simulated histories of 6 / 9 calls), replayed on real gil::image objects over a tracking allocator and a counting element type, and every allocator event and the projected state after every call are validated by TLC against the same invariants plus requested dimensions, row alignment, storage reuse, deep-copy equality / non-aliasing and exception propagation.',
+         'Element-constructor failures are not injected. Ownership of an EMPTY image\'s retained block is not observable: leaks are detected as more live blocks than live images and at quiescence. One open known finding (unequal non-propagating allocators).', '4 C10'),
 }
 NA_REASON = {}
 HOOK_COMMITS = []
